@@ -61,9 +61,18 @@ theorem removeFeature_all_attributes (s : Disc) (f : String) (hf : f ∈ s.featu
   simp only [hf, not_true_eq_false, if_false]
   refine ⟨by simp, by simp, by simp, aget_aerase_same _ _, aget_aerase_same _ _, aget_aerase_same _ _, ?_⟩
   intro c hc
-  obtain ⟨hc1, _⟩ := List.mem_filter.1 hc
-  obtain ⟨c0, _, rfl⟩ := List.mem_map.1 hc1
-  simp
+  obtain ⟨c0, _, hg⟩ := List.mem_filterMap.1 hc
+  by_cases h0 : f ∈ c0.2
+  · simp only [h0, if_true] at hg
+    split at hg
+    · cases hg
+    · injection hg with hg
+      subst hg
+      simp
+  · simp only [h0, if_false] at hg
+    injection hg with hg
+    subst hg
+    exact h0
 
 /-- **… and nothing else is touched**: every other feature keeps its membership, order, labels. -/
 theorem removeFeature_frame (s : Disc) (f g : String) (hg : g ≠ f) :
